@@ -52,6 +52,21 @@ pub fn gen_source(rng: &mut Rng) -> Ipv4Addr {
     }
 }
 
+/// The first few filters of every campaign are fixed special values: addresses that mean
+/// "everything" in other contexts (bind addresses) but are ordinary, unmatched values in a filter.
+pub fn gen_filter_indexed(rng: &mut Rng, sources: &[Ipv4Addr], i: u64) -> F {
+    let unspec4 = IpAddr::V4(Ipv4Addr::UNSPECIFIED);
+    let unspec6 = IpAddr::V6(Ipv6Addr::UNSPECIFIED);
+    match i {
+        0 => F::Exact(unspec4),
+        1 => F::Exact(unspec6),
+        2 => F::AnyOf(vec![unspec4, unspec6, IpAddr::V4(Ipv4Addr::BROADCAST)]),
+        3 => F::Exact(IpAddr::V6(Ipv4Addr::LOCALHOST.to_ipv6_mapped())),
+        4 => F::Wildcard([Some(0), Some(0), Some(0), Some(0)]),
+        _ => gen_filter(rng, sources),
+    }
+}
+
 pub fn gen_filter(rng: &mut Rng, sources: &[Ipv4Addr]) -> F {
     match rng.below(10) {
         0 => F::Any,
